@@ -28,6 +28,11 @@
 #else
 #define OBL_C07(c, m)
 #endif
+#ifdef PROP_C08
+#define OBL_C08(c, m) __CPROVER_assert(c, "C08 " m)
+#else
+#define OBL_C08(c, m)
+#endif
 #ifdef PROP_C09
 #define OBL_C09(c, m) __CPROVER_assert(c, "C09 " m)
 #else
@@ -576,6 +581,9 @@ static inline BOOL QFile_remove__QString(QString path)
     OBL_C06(path.tag == T_ROTPATH, "only files of this sink's rotated-name scheme are ever removed (never the active file, never a foreign file)");
     if (path.tag == T_ACTIVE) { g_removes++; if (MAY_FAIL()) return 0; g_lost += g_A_recs; g_A_exists = 0; g_A_size = 0; g_A_recs = 0; return 1; }
     if (path.tag != T_ROTPATH) { g_removes++; g_foreign_touched++; return NONDET_BOOL(); }
+    /* the file produced by the rotation in progress (still uncompressed) may disappear only once its compressed copy is complete */
+    if (g_new.exists && !g_new.gz && !path.gz && path.jd == g_new.jd && path.idx == g_new.idx)
+        OBL_C08(g_gz_exists && g_gz_complete, "the uncompressed rotated file disappears only once the compressed one is complete (written and closed)");
     /* compressFile removing the uncompressed original: only once the compressed copy is complete */
     if (g_new.exists && !path.gz && path.jd == g_new.jd && path.idx == g_new.idx && g_gz_exists) {
         g_comp_removes++;
